@@ -12,6 +12,7 @@
 //                                       fptrs[i] = (void*)(0x100000*(k+1) + 16*i) for the k-th module (k from 0),
 //                                       each trailing "!<n>" token makes fptrs[n] NULL instead
 //                                       -> "M k first_index next_index" (the range the library assigned)
+//   ranges                              force the lazy load, then -> "G k first_index next_index" per requested module
 //   force                               force the lazy load (interrogate_number_of_types) -> "E <error flag>"
 //   err                                 -> "E <error flag>"
 //   next                                -> "N <next index>"   (NOTE: consumes one index, as the library's accessor does)
@@ -238,9 +239,11 @@ static const char *keep(const std::string &s, bool null) {
   return p;
 }
 
+static std::vector<InterrogateModuleDef *> g_defs;
 static InterrogateModuleDef *new_def() {
   InterrogateModuleDef *def = new InterrogateModuleDef;
   memset(def, 0, sizeof *def);
+  g_defs.push_back(def);
   return def;
 }
 
@@ -355,6 +358,11 @@ int main(int argc, char **argv) {
       interrogate_request_module(def);
       o << "M " << g_modules << " " << def->first_index << " " << def->next_index << "\n";
       ++g_modules;
+    } else if (c == "ranges") {
+      // index range of every module requested so far (assigned when the file is actually loaded)
+      interrogate_number_of_types();
+      for (size_t i = 0; i < g_defs.size(); ++i)
+        o << "G " << i << " " << g_defs[i]->first_index << " " << g_defs[i]->next_index << "\n";
     } else if (c == "force") {
       interrogate_number_of_types();
       o << "E " << (interrogate_error_flag() ? 1 : 0) << "\n";
